@@ -708,6 +708,28 @@ fn search_listen_time(obs: &[&str]) {
     for ob in obs { emit(ob, found.is_some(), explored, found.clone().unwrap_or(Value::Null)); }
 }
 
+// C15.unlink: the filesystem socket listen() created is gone after it returns
+fn search_unlink(ob: &str) {
+    let mut found = None;
+    let dir = std::env::temp_dir().join(format!("vx-replay-unlink-{}", std::process::id()));
+    let _ = std::fs::create_dir_all(&dir);
+    let path = dir.join("sock");
+    let addr = format!("unix:{};mode=0660", path.display());
+    let stop = Arc::new(std::sync::atomic::AtomicBool::new(false));
+    let stop2 = stop.clone();
+    let t = std::thread::spawn(move || varlink::listen(service(), &addr, &varlink::ListenConfig { initial_worker_threads: 1, max_worker_threads: 2, idle_timeout: 0, stop_listening: Some(stop2) }).map_err(|e| format!("{:?}", e.kind())));
+    std::thread::sleep(Duration::from_millis(250));
+    let existed = path.exists();
+    stop.store(true, Ordering::SeqCst);
+    let r = t.join().unwrap_or(Err("PANIC".into()));
+    let still = path.exists();
+    let _ = std::fs::remove_dir_all(&dir);
+    if !existed || still || r.is_err() {
+        found = Some(json!({"address": "unix:<tmp>/sock;mode=0660", "socket_file_existed_while_listening": existed, "socket_file_exists_after_listen_returned": still, "listen_result": format!("{:?}", r)}));
+    }
+    emit(ob, found.is_some(), 1, found.unwrap_or(Value::Null));
+}
+
 // C17: Request / Reply round trips over the full flag domain {unset, true, false}
 fn search_wire_roundtrip(obs: &[&str]) {
     let mut found = None;
@@ -768,6 +790,7 @@ fn main() {
     if !th.is_empty() { search_client_threads(&th); }
     let lt: Vec<&str> = ["C15.idle", "C15.drain", "C15.drain-w", "C15.busy", "C15.stop", "C15.no-panic"].iter().cloned().filter(|o| m(o)).collect();
     if !lt.is_empty() { search_listen_time(&lt); }
+    if m("C15.unlink") { search_unlink("C15.unlink"); }
     let wr: Vec<&str> = ["C17.wire-attrs"].iter().cloned().filter(|o| m(o)).collect();
     if !wr.is_empty() { search_wire_roundtrip(&wr); }
 }
